@@ -95,12 +95,26 @@ def generate(prop, rng, index, tier):
         elif r < 0.55 and c["dtype"] == "int":
             rd["dtype"] = "Integer"
         reads.append(rd)
-    return {"engine": ENGINE, "prop": "C17", "columns": cols, "listed": listed, "actor": actor, "reads": reads}
+    for rd in reads:
+        rd["phase"] = "pre" if rng.random() < 0.3 else "post"
+        rd["spelling"] = rng.choice(["abs", "rel", "dot", "dotdot"])
+    rewrite = None
+    if rng.random() < 0.3:
+        keep = [i for i in listed if rng.random() < 0.7] or listed[:1]
+        rng.shuffle(keep)
+        rewrite = {"listed": keep, "spelling": rng.choice(["abs", "rel", "dot", "dotdot"])}
+    return {"engine": ENGINE, "prop": "C17", "columns": cols, "listed": listed, "actor": actor, "reads": reads,
+            "rewrite": rewrite, "write_spelling": rng.choice(["abs", "rel", "dot"])}
 
 
 # ------------------------------------------------------------------------------------------------
 def _bits(x):
     return struct.pack("<d", float(x))
+
+
+def _spell(kind):
+    """Different spellings of the same file."""
+    return {"abs": PATH, "rel": "table.csv", "dot": WORK + "/./table.csv", "dotdot": WORK + "/sub/../table.csv"}.get(kind, PATH)
 
 
 def _header_line(names):
@@ -139,8 +153,8 @@ def execute(sc):
                 arrays[c["name"]] = arr
             listed = [cols[i]["name"] for i in sc["listed"]]
             # ---- WRITE ----------------------------------------------------------------------------------------
-            program.add_command(program.find_command_class("EEMSWrite"), "__write__", {"OutFileName": PATH,
-                                                                                     "OutFieldNames": listed})
+            program.add_command(program.find_command_class("EEMSWrite"), "__write__",
+                                {"OutFileName": _spell(sc.get("write_spelling", "abs")), "OutFieldNames": listed})
             log.emit("op-begin", op="WRITE")
             try:
                 program.commands["__write__"].run()
@@ -172,17 +186,49 @@ def execute(sc):
             res.probe("written file has the header in listed order and one record per cell")
             if any(n != _header_line([n]) for n in listed):
                 res.probe("header name needed CSV quoting")
+            state = {"head_names": list(listed), "bad_cells": {}, "row_line": {r: r + 1 for r in range(nrows)}}
+            for ci, c in enumerate(cols):
+                if c["name"] in listed:
+                    for r, m in enumerate(c["mask"]):
+                        if m:
+                            state["bad_cells"].setdefault(c["name"], []).append(r)
+
+            def do_reads(phase):
+                for k, rd in enumerate(sc["reads"]):
+                    if rd.get("phase", "post") != phase:
+                        continue
+                    c = cols[rd["col"] % len(cols)]
+                    name = c["name"]
+                    args = {"InFileName": _spell(rd.get("spelling", "abs" if k % 2 == 0 else "rel")), "InFieldName": name}
+                    mv = _val(rd["missing"]) if rd.get("missing") is not None else None
+                    if mv is not None:
+                        args["MissingVal"] = mv
+                    if rd.get("dtype"):
+                        args["DataType"] = rd["dtype"]
+                    rname = "R%d" % k
+                    program.add_command(program.find_command_class("EEMSRead"), rname, args)
+                    log.emit("op-begin", op="READ", phase=phase, col=name, missing=repr(mv), dtype=rd.get("dtype"))
+                    try:
+                        got = program.commands[rname].result
+                        err = None
+                    except SimAbort:
+                        raise
+                    except Exception as exc:  # noqa
+                        got, err = None, exc
+                    log.emit("op-end", op="READ", ok=err is None, exc=type(err).__name__ if err else None)
+                    _judge_read(res, c, name, rd, mv, got, err, state["head_names"], state["bad_cells"],
+                                state["row_line"], nrows, MPilotError, numpy)
+                    if phase == "pre":
+                        res.probe("column read before the file was changed")
+
+            do_reads("pre")
             # ---- ACTOR: the environment corrupts known positions ---------------------------------------------------------
             lines = text.split("\n")
             if lines and lines[-1] == "":
                 lines.pop()
-            head_names = list(listed)
-            row_line = {r: r + 1 for r in range(nrows)}     # data row -> index into `lines`
-            bad_cells = {}     # column name -> list of data rows holding garbage
-            for ci, c in enumerate(cols):
-                for r, m in enumerate(c["mask"]):
-                    if m:
-                        bad_cells.setdefault(c["name"], []).append(r)    # a missing cell is written as text
+            head_names = state["head_names"]
+            row_line = state["row_line"]     # data row -> index into `lines`
+            bad_cells = state["bad_cells"]   # column name -> data rows holding non-numeric text (a missing cell is text)
             for a in sc["actor"]:
                 if a["do"] == "garbage-cell" and nrows:
                     r = a["row"] % nrows
@@ -213,28 +259,32 @@ def execute(sc):
                 fs.mutations += 1
                 log.emit("actor", do=a["do"])
                 res.fired("actor-" + a["do"])
-            # ---- READ -----------------------------------------------------------------------------------------
-            for k, rd in enumerate(sc["reads"]):
-                c = cols[rd["col"] % len(cols)]
-                name = c["name"]
-                args = {"InFileName": PATH if k % 2 == 0 else "table.csv", "InFieldName": name}
-                mv = _val(rd["missing"]) if rd.get("missing") is not None else None
-                if mv is not None:
-                    args["MissingVal"] = mv
-                if rd.get("dtype"):
-                    args["DataType"] = rd["dtype"]
-                rname = "R%d" % k
-                program.add_command(program.find_command_class("EEMSRead"), rname, args)
-                log.emit("op-begin", op="READ", col=name, missing=repr(mv), dtype=rd.get("dtype"))
+            # ---- REWRITE through another spelling of the same path, with another selection of columns -----------------------
+            rw = sc.get("rewrite")
+            if rw:
+                names2 = [cols[i % len(cols)]["name"] for i in rw["listed"]]
+                program.add_command(program.find_command_class("EEMSWrite"), "__rewrite__",
+                                    {"OutFileName": _spell(rw.get("spelling", "abs")), "OutFieldNames": names2})
+                log.emit("op-begin", op="REWRITE", names=names2)
                 try:
-                    got = program.commands[rname].result
-                    err = None
+                    program.commands["__rewrite__"].run()
                 except SimAbort:
                     raise
                 except Exception as exc:  # noqa
-                    got, err = None, exc
-                log.emit("op-end", op="READ", ok=err is None, exc=type(err).__name__ if err else None)
-                _judge_read(res, c, name, rd, mv, got, err, head_names, bad_cells, row_line, nrows, MPilotError, numpy)
+                    res.violate("C17.write", "C17.write rewrite-raised %s" % type(exc).__name__,
+                                "rewriting the file raised %r" % (exc,))
+                    return _finish(sc, res)
+                state["head_names"] = list(names2)
+                state["row_line"] = {r: r + 1 for r in range(nrows)}
+                state["bad_cells"] = {}
+                for c in cols:
+                    if c["name"] in names2:
+                        for r, m in enumerate(c["mask"]):
+                            if m:
+                                state["bad_cells"].setdefault(c["name"], []).append(r)
+                res.probe("file rewritten through another spelling of its path")
+            # ---- READ -----------------------------------------------------------------------------------------
+            do_reads("post")
         finally:
             mon.uninstall()
     return _finish(sc, res)
@@ -332,6 +382,27 @@ def shrink_candidates(sc):
         c = clone()
         del c["actor"][i]
         yield c
+    if sc.get("rewrite"):
+        c = clone()
+        c["rewrite"] = None
+        yield c
+        if sc["rewrite"].get("spelling") != "abs":
+            c = clone()
+            c["rewrite"]["spelling"] = "abs"
+            yield c
+    if sc.get("write_spelling", "abs") != "abs":
+        c = clone()
+        c["write_spelling"] = "abs"
+        yield c
+    for i, rd in enumerate(sc["reads"]):
+        if rd.get("phase") == "pre":
+            c = clone()
+            c["reads"][i]["phase"] = "post"
+            yield c
+        if rd.get("spelling", "abs") != "abs":
+            c = clone()
+            c["reads"][i]["spelling"] = "abs"
+            yield c
     if len(sc["reads"]) > 1:
         for i in range(len(sc["reads"])):
             c = clone()
@@ -346,6 +417,8 @@ def shrink_candidates(sc):
             c = clone()
             del c["columns"][i]
             c["listed"] = [j - (1 if j > i else 0) for j in c["listed"] if j != i]
+            if c.get("rewrite"):
+                c["rewrite"]["listed"] = [j - (1 if j > i else 0) for j in c["rewrite"]["listed"] if j != i] or [0]
             for rd in c["reads"]:
                 rd["col"] = (rd["col"] % ncols) - (1 if (rd["col"] % ncols) > i else 0)
             yield c
@@ -384,7 +457,9 @@ def sample(sc):
     return {"columns": [[c["name"], c["dtype"], [_val(v) for v in c["values"]][:6], c["mask"][:6]] for c in sc["columns"]],
             "written_in_order": [sc["columns"][i]["name"] for i in sc["listed"]], "environment_actor": sc["actor"],
             "reads": [[sc["columns"][rd["col"] % len(sc["columns"])]["name"],
-                       None if rd.get("missing") is None else _val(rd["missing"]), rd.get("dtype")] for rd in sc["reads"]]}
+                       None if rd.get("missing") is None else _val(rd["missing"]), rd.get("dtype"), rd.get("phase"),
+                       rd.get("spelling")] for rd in sc["reads"]],
+            "rewrite": sc.get("rewrite")}
 
 
 RULES = {
